@@ -180,8 +180,7 @@ def rule_r3(ctx, rid="C19.R3"):
         ctx.r.violation(rid, "latch-never-cleared", "sent_continue is never reset after a request completed: the second expecting request on a connection gets no 100 Continue, its client never sends the body and the request is never answered", "src/waitress/channel.py")
 
 
-def rule_r4(ctx):
-    rid = "C19.R4"
+def rule_r4(ctx, rid="C19.R4"):
     ctx.r.rule(rid, "the interim bytes are exactly b'HTTP/1.1 100 Continue\\r\\n\\r\\n', appended (and counted) inside the output lock")
     p = ctx.p
     lk = get_locks(p)
@@ -252,14 +251,16 @@ def rule_r5(ctx):
         if isinstance(val, ast.Compare) and len(val.ops) == 1 and isinstance(val.ops[0], ast.Eq):
             consts = [x.value for x in ast.walk(val) if isinstance(x, ast.Constant)]
             cmp_ok = "100-continue" in consts
-        if v11 and cmp_ok:
+        if isinstance(val, ast.Constant) and val.value is False:
+            ctx.r.ok(rid, "the parser records 'no expectation' (constant False)", a.loc)
+        elif v11 and cmp_ok:
             ctx.r.ok(rid, "expectation recorded only for HTTP/1.1 and only for '100-continue'", a.loc)
         else:
             ctx.r.violation(rid, key_of(a.func, None, "expect-assign"), "expect_continue assigned from %s (on the 1.1 path: %s)" % (norm(val) if val is not None else "?", bool(v11)), a.loc)
         # the compared value derives from the EXPECT header, lower-cased
         if isinstance(val, ast.Compare):
             names = [x.id for x in ast.walk(val) if isinstance(x, ast.Name)]
-            src_ok = False
+            src_ok = "'EXPECT'" in norm(val) and ".lower()" in norm(val)  # compared in place: headers['EXPECT'].lower() == ...
             for nm in names:
                 for node in walk_own(a.func.node):
                     if isinstance(node, ast.Assign) and any(isinstance(t, ast.Name) and t.id == nm for t in node.targets):
